@@ -327,3 +327,115 @@ Proof. exact (psd_on_sig bvalid Sov overlap_model_psd). Qed.
 Theorem overlap_model_is_gram :
   exists (L2 : ipspace) (phi : vidx -> vec L2), forall a b, SovV a b = ip L2 (phi a) (phi b).
 Proof. exact (psd_symm_is_gram SovV SovV_symm SovV_psd). Qed.
+
+(* ------------------------------------------------------------------ *)
+(* 5. kinetic energy: integration by parts, one axis                   *)
+(* ------------------------------------------------------------------ *)
+Lemma Derive_n_1 (f : R -> R) x : Derive_n f 1 x = Derive f x.
+Proof. reflexivity. Qed.
+Lemma Derive_n_0 (f : R -> R) x : Derive_n f 0 x = f x.
+Proof. reflexivity. Qed.
+
+(* d/dx [(x-A)^i e^{-al (x-A)^2}] = i (x-A)^(i-1) e^.. - 2 al (x-A)^(i+1) e^.. *)
+Lemma cg1_Derive1 al A i x :
+  Derive (cg1 al A i) x = INR i * cg1 al A (i - 1) x - 2 * al * cg1 al A (S i) x.
+Proof.
+  change (Derive (cg1 al A i) x) with (Derive_n (cg1 al A i) 1 x).
+  rewrite cg1_Derive_n, uR_S. destruct i as [|i']; rewrite !uR_0; unfold cg1.
+  - cbn [INR]. ring.
+  - rewrite DerivBridge.ofnat_INR. replace (S i' - 1)%nat with i' by lia. ring.
+Qed.
+
+(* int f' g' dx = - int f g'' dx  for f = (x-A)^i e^{-al (x-A)^2}, g = (x-B)^j e^{-be (x-B)^2}:
+   the left side by linearity from  int (x-A)^k e^.. g' dx  (Bridge3D.deriv_1d_integral, k = 1), the equality
+   of the two VALUES by the algebraic integration-by-parts identity of the moment functional
+   (DiffOpP.ibp, ibp_iter: negA^2 S = Bop^2 S) *)
+Theorem grad_1d_integral (al be A B : R) (i j : nat) : 0 < al -> 0 < be ->
+  gint (fun x => Derive (cg1 al A i) x * Derive (cg1 be B j) x) (- D1 RK A B al be 2 i j).
+Proof.
+  intros Ha Hb.
+  pose proof (deriv_1d_integral al be A B 1 (i - 1) j Ha Hb) as H1.
+  pose proof (deriv_1d_integral al be A B 1 (S i) j Ha Hb) as H2.
+  refine (gint_ext _ _ _ _ _ _ (gint_minus _ _ _ _ (gint_scal (INR i) _ _ H1) (gint_scal (2 * al) _ _ H2))).
+  - intro x. cbv beta. rewrite cg1_Derive1.
+    change (Derive_n (cg1 be B j) 1 x) with (Derive (cg1 be B j) x). ring.
+  - assert (Hp : psum RK al be <> f0 RK) by (change (al + be <> 0); lra).
+    pose proof (ibp_iter RK RK_field A B al be Hp two_neq_0_R 2 i j) as E2. cbn [iterop] in E2.
+    unfold D1. cbn [iterop]. rewrite <- E2. unfold negA at 1.
+    rewrite !(ibp RK RK_field A B al be Hp two_neq_0_R). rewrite ofnat_R.
+    change (fmul RK) with Rmult. change (fadd RK) with Rplus. change (fsub RK) with Rminus.
+    change (f1 RK) with 1. ring.
+Qed.
+
+(* ------------------------------------------------------------------ *)
+(* 6. kinetic energy in three dimensions: T_ab = 1/2 int grad chi_a . grad chi_b *)
+(* ------------------------------------------------------------------ *)
+(* grad F . grad G *)
+Definition gdot (F G : R -> R -> R -> R) (x y z : R) : R :=
+  pd3 1 0 0 F x y z * pd3 1 0 0 G x y z + pd3 0 1 0 F x y z * pd3 0 1 0 G x y z
+  + pd3 0 0 1 F x y z * pd3 0 0 1 G x y z.
+
+Theorem kinetic_prim_grad_integral (sa sb : shell R) (ca cb : Shell.comp) (al be : R) :
+  0 < al -> 0 < be ->
+  gint3 (fun x y z => 1 / 2 * gdot (gprim sa al ca) (gprim sb be cb) x y z) (kin_prim RK sa sb ca cb al be).
+Proof.
+  intros Ha Hb.
+  pose proof (fun A B i j => grad_1d_integral al be A B i j Ha Hb) as HG.
+  pose proof (fun A B i j => Sfun_integral al be A B i j Ha Hb) as HS.
+  pose proof (gint3_prod _ _ _ _ _ _ (HG (s_x sa) (s_x sb) (cx ca) (cx cb)) (HS (s_y sa) (s_y sb) (cy ca) (cy cb))
+                (HS (s_z sa) (s_z sb) (cz ca) (cz cb))) as X.
+  pose proof (gint3_prod _ _ _ _ _ _ (HS (s_x sa) (s_x sb) (cx ca) (cx cb)) (HG (s_y sa) (s_y sb) (cy ca) (cy cb))
+                (HS (s_z sa) (s_z sb) (cz ca) (cz cb))) as Y.
+  pose proof (gint3_prod _ _ _ _ _ _ (HS (s_x sa) (s_x sb) (cx ca) (cx cb)) (HS (s_y sa) (s_y sb) (cy ca) (cy cb))
+                (HG (s_z sa) (s_z sb) (cz ca) (cz cb))) as Z.
+  refine (gint3_ext _ _ _ _ _ _ (gint3_scal (1 / 2) _ _ (gint3_plus _ _ _ _ (gint3_plus _ _ _ _ X Y) Z))).
+  - intros x y z. cbv beta. unfold gdot, gprim. rewrite !pd3_cprim, !Derive_n_1, !Derive_n_0. ring.
+  - unfold kin_prim, S1.
+    change (fmul RK) with Rmult. change (fadd RK) with Rplus. change (fdiv RK) with Rdiv.
+    change (fopp RK) with Ropp. change (f1 RK) with 1. field.
+Qed.
+
+(* finite sums of Tables.mk form: additivity and scaling *)
+Lemma fsumR_plus n (f g : nat -> R) :
+  fsumR (Tables.mk n f) + fsumR (Tables.mk n g) = fsumR (Tables.mk n (fun i => f i + g i)).
+Proof. induction n as [|n IH]; [cbn; ring|]. rewrite !fsumR_S, <- IH. ring. Qed.
+
+Lemma fsumR_scal c n (f : nat -> R) :
+  c * fsumR (Tables.mk n f) = fsumR (Tables.mk n (fun i => c * f i)).
+Proof. induction n as [|n IH]; [cbn; ring|]. rewrite !fsumR_S, <- IH. ring. Qed.
+
+Lemma pd3_pair_cfun (sa sb : shell R) (ca cb : Shell.comp) (ma mb ox oy oz : nat) (x y z : R) :
+  pd3 ox oy oz (cfun sa ma ca) x y z * pd3 ox oy oz (cfun sb mb cb) x y z
+  = fsumR (Tables.mk (length (s_exps sa)) (fun ka =>
+      fsumR (Tables.mk (length (s_exps sb)) (fun kb =>
+        cw sa ma ca ka * cw sb mb cb kb
+        * (pd3 ox oy oz (gprim sa (nth ka (s_exps sa) 0) ca) x y z
+           * pd3 ox oy oz (gprim sb (nth kb (s_exps sb) 0) cb) x y z))))).
+Proof.
+  rewrite !pd3_cfun, fsumR_prod. apply fsumR_ext. intro ka. apply fsumR_ext. intro kb. ring.
+Qed.
+
+Lemma gdot_cfun (sa sb : shell R) (ca cb : Shell.comp) (ma mb : nat) (w : R) (x y z : R) :
+  w * gdot (cfun sa ma ca) (cfun sb mb cb) x y z
+  = fsumR (Tables.mk (length (s_exps sa)) (fun ka =>
+      fsumR (Tables.mk (length (s_exps sb)) (fun kb =>
+        cw sa ma ca ka * cw sb mb cb kb
+        * (w * gdot (gprim sa (nth ka (s_exps sa) 0) ca) (gprim sb (nth kb (s_exps sb) 0) cb) x y z))))).
+Proof.
+  unfold gdot. rewrite !pd3_pair_cfun, !fsumR_plus, fsumR_scal.
+  apply fsumR_ext. intro ka. rewrite !fsumR_plus, fsumR_scal. apply fsumR_ext. intro kb. ring.
+Qed.
+
+Theorem kinetic_pair_is_grad_integral (a b : bidx) : bvalid a -> bvalid b ->
+  gint3 (fun x y z => 1 / 2 * gdot (chi a) (chi b) x y z) (Tkin a b).
+Proof.
+  intros [Wa [Pa [Hma Hia]]] [Wb [Pb [Hmb Hib]]]. unfold Tkin.
+  rewrite (kinetic_block_correct RK RK_field fapx_id_R two_neq_0_R (bsh a) (bsh b) (bseg a) (bci a) (bseg b) (bci b)
+             Wa Wb (exps_ok_pos_R _ _ Pa Pb) Hma Hia Hmb Hib).
+  fold (bcomp a) (bcomp b).
+  refine (gint3_ext _ _ _ _ _ eq_refl
+            (contracted_integral (bsh a) (bsh b) (bcomp a) (bcomp b) (bseg a) (bseg b)
+               (fun al be x y z => 1 / 2 * gdot (gprim (bsh a) al (bcomp a)) (gprim (bsh b) be (bcomp b)) x y z) _ _)).
+  - intros x y z. cbv beta. unfold chi. now rewrite gdot_cfun.
+  - intros al be Ha Hb. exact (kinetic_prim_grad_integral _ _ _ _ al be (Pa _ Ha) (Pb _ Hb)).
+Qed.
